@@ -10,16 +10,18 @@ from ..rtc import drive_encoding, runner
 
 LEVEL = "exploration"
 PROP = "C05"
-RULE = ("every ccube in scope (1-4 one-axis dimensions, plus cubes with a 2- or 3-axis dimension; N<=3 quick / 4 thorough; explicit extents 1..3 "
-        "(4 thorough), data over 0..extent-1 so that padded extents and never-occurring values are included) x aggregate calls (count with weights "
-        "None/scalar 2.0/scalar 0.0/array/(values,validity); valid_count, sum, mean with fact NaN-marked or (values,validity), 1 or 2 columns, "
-        "weights None/array/(values,validity); both ignore_missing policies; formats NaN and (0,False)) x EVERY encoding tuple (one common per "
-        "dimension in 0..extent-1, built with speclib.mk): each pair of encodings differing in one dimension is compared (missing cells exactly, "
-        "values within 1e-9*max(1,|total|)), and each encoding again after the library's renormalising shift_common() on one dimension. Dimension "
-        "data are enumerated exhaustively for the small shapes and by a deterministic evenly spread stride over the exhaustive index range for the "
-        "larger ones (families 3dims-3cat and the multi-axis ones; thorough: stride offset from VERIF_SEED); aggregate configurations and fact / "
-        "weight data walk their full lists with a coprime stride (all configurations on every 1-dimension cube). A case (cube, call) is "
-        "non-trivial when at least one pair of encodings was compared; cases are distinct by construction")
+RULE = ("every ccube in scope (quick: 1-3 one-axis dimensions, N in 0..3 rows, explicit category extents 1..3; thorough: up to 4 dimensions, N<=4, "
+        "extents<=4; plus cubes with a 2- or 3-axis dimension alone or beside another dimension; data over 0..extent-1, so padded extents and "
+        "never-occurring values are included) x aggregate calls (count with weights None/scalar 2.0/scalar 0.0/array/(values,validity); "
+        "valid_count, sum, mean with fact NaN-marked or (values,validity), 1 or 2 columns over {0,1,2.5,NaN}, weights None/array/(values,validity) "
+        "over {0,1.5,2,NaN}; both ignore_missing policies; formats NaN and (0,False)) x EVERY encoding tuple (one common per dimension in "
+        "0..extent-1, each index built with speclib.mk): every pair of encodings differing in one dimension is compared (missing cells exactly, "
+        "values within 1e-9*max(1,|total|)), and every encoding again after the library's renormalising shift_common() on one dimension "
+        "(dimensions of at most 2 axes - shift_common's own precondition). Dimension data are enumerated exhaustively for the families listed "
+        "under exhaustive_data_families and by a deterministic evenly spread stride over the exhaustive index range (plus two ramps) for the "
+        "others (thorough: stride offset from VERIF_SEED); aggregate configurations and fact / weight data walk their full lists with a "
+        "coprime stride (all configurations on every 1-dimension cube). A case (cube, call) is non-trivial when at least one pair of "
+        "encodings was compared; cases are distinct by construction")
 EXPECT = ["count/encoding-independent-missing-cells", "count/encoding-independent-values",
           "valid_count/encoding-independent-missing-cells", "sum/encoding-independent-values", "mean/encoding-independent-values",
           "mean/encoding-independent-missing-cells",
@@ -46,7 +48,7 @@ def run(ctx):
                   extra_cov={"common_kinds": kinds, "failing_input_classes": failing,
                              "common_kinds_note": "number of (cube under one encoding, dimension) whose common value has no row / some rows but "
                                                   "fewer than the mode / as many rows as the mode",
-                             "exhaustive_part": "dimension data exhaustive for families 1dim, 2dims, 3dims-2cat (quick); all encodings always",
+                             "exhaustive_data_families": drive_encoding.exhaustive_families(ctx.tier),
                              "families": [f["name"] for f in drive_encoding.families(ctx.tier)]})
     ctx.assumptions += ["bounded: holds on the enumerated cube/call/encoding scope only (engine C is the bounded stand-in, not a proof)",
                         "oracle is relational by the property's own definition: library output under one encoding against library output "
